@@ -190,5 +190,26 @@ PROPS["C06"] = dict(
     ],
 )
 
+STREAMBUF_BASE = "_ZNSt15basic_streambufIcSt11char_traitsIcEE(6xsputn|5uflow|6xsgetn|9underflow|8overflow|9pbackfail|9showmanyc|4sync|7seekoff|7seekpos|6setbuf|5imbue)"
+PROPS["C12"] = dict(
+    title="Uploaded form data is reconstructed exactly under any chunking, within limits",
+    level="model_checking",
+    trusted_base=COMMON_TB + ["cppcms::http::file is a stub (raw storage; name/filename/mime recorded; write_data() returns a recording stream): models/stubs_httpfile.c + harness",
+                              "std::istream::seekg is a no-op; std::locale facets are null"],
+    assumptions=["boundary keys consist of RFC 2046 bchars (no CR); the matcher step obligation is inductive: the pending-prefix state q and the chunk are arbitrary"],
+    outside="part-header grammar (process_header is cut in the matcher obligation), declared-length accounting in request::on_content_progress, urlencoded bodies (C15.b2 covers the decoder), temp-file spill-over and lifetime, content filters",
+    obligations=[
+        dict(id="C12.a", harness="C12_multipart.cpp", entry="h_c12a_matcher_step", ctors=False, models=["stubs_httpfile.c"],
+             noop=["_ZNSi5seekgE"], cut=["multipart_parser14process_header"],
+             desc="multipart_parser::consume in the part-content state, one inductive step: from any pending prefix length q and for any chunk, the sink receives exactly the stream minus the pending delimiter prefix, the part completes exactly at the first delimiter, position_ is the longest suffix/prefix overlap",
+             tiers=T(quick=dict(defs=dict(VERIF_NK=1), split=[[0, 1, 2, 3, 4], [1, 2, 3, 4, 5]], unwind=12, unwindset={"F__ZN6cppcms4impl16multipart_parser7consumeERPKcS3_.0": "p1+2", "F__ZN6cppcms4impl16multipart_parser7consumeERPKcS3_.1": "p1+2"}, timeout=900, bounds="delimiter CRLF--k (k any bchar); pending prefix q in 0..4; chunk of 1..5 arbitrary bytes"),
+                     thorough=dict(defs=dict(VERIF_NK=2), split=[[0, 1, 2, 3, 4, 5], [1, 2, 3, 4, 5, 6, 7, 8]], unwind=16, unwindset={"F__ZN6cppcms4impl16multipart_parser7consumeERPKcS3_.0": "p1+2", "F__ZN6cppcms4impl16multipart_parser7consumeERPKcS3_.1": "p1+2"}, timeout=3000, bounds="delimiter CRLF--k1k2; pending prefix q in 0..5; chunk of 1..8 arbitrary bytes"))),
+        dict(id="C12.a-k2", harness="C12_multipart.cpp", entry="h_c12a_matcher_step", ctors=False, models=["stubs_httpfile.c"],
+             noop=["_ZNSi5seekgE"], cut=["multipart_parser14process_header"],
+             desc="the same inductive matcher step for a two-character boundary key (delimiter of 6 bytes, more look-alike prefixes)",
+             tiers=T(quick=dict(defs=dict(VERIF_NK=2), split=[[0, 3, 5], [2, 4]], unwind=12, unwindset={"F__ZN6cppcms4impl16multipart_parser7consumeERPKcS3_.0": "p1+2", "F__ZN6cppcms4impl16multipart_parser7consumeERPKcS3_.1": "p1+2"}, timeout=900, bounds="delimiter CRLF--k1k2; pending prefix q in {0,3,5}; chunk of 2 or 4 arbitrary bytes"))),
+    ],
+)
+
 # properties for which no obligation can be built with this technique (reason required)
 NOT_APPLICABLE = {}
